@@ -1305,8 +1305,6 @@ class SQLModel:
                 for k in select_columns_node.column_selection
                 if k in subusing
             }
-        else:
-            subsql.terms = []
         return subsql
 
     def drop_columns_to_near_sql(
